@@ -33,9 +33,10 @@ CONSTANTS Level,       \* 1: depth-1 alphabet; 2: + reduced depth-2 alphabet; 3:
           TripleLevel, \* 1: small triple alphabet; 2: large
           Shard, NShards, \* this TLC process handles the type cases with index % NShards = Shard;
                           \* Shard = NShards: no type cases, only Part 2 (Part 2 also runs when NShards = 1); MaxLen = 0: no Part 2
-          Fixed,       \* subset of {"dup", "map"}: defect paths repaired in the tree under test (the harness
-                       \* probes the real code): "dup" = merge returns a when a = b; "map" = maps are not merged
-                       \* structurally (two different map types fuse to a union of both)
+          Fixed,       \* subset of {"dup", "map", "unionhome"}: defect paths repaired in the tree under test (the
+                       \* harness probes the real code): "dup" = merge returns a when a = b; "map" = maps are not
+                       \* merged structurally (two different map types fuse to a union of both); "unionhome" = the
+                       \* shaper shapes a record/array/set to the first union member it can be shaped to and tags it
           OutFile,     \* ndjson file for the type cases ("" = no export)
           SpillFile,   \* ndjson file for the spill cases ("" = no export)
           MaxLen,      \* state machine: max number of input values
@@ -199,6 +200,13 @@ UnionHomeTaint(in, out) ==
   THEN {"unionhome"} ELSE {}
 
 RECURSIVE ShaperTypeR(_, _), ShaperFieldsR(_, _, _, _), UnionMembersR(_, _, _, _), SortedByName(_)
+RECURSIVE NewStepR(_, _), ShapeableTo(_, _)
+\* shapeableUnionTag(in, out) > -1 (only in a tree with "unionhome" repaired), and the member it picks
+Shapeable(in, out) == LET ou == Under(out) IN
+  "unionhome" \in Fixed /\ ou.k = "union" /\ Under(in).k # "union" /\ \E i \in 1..Len(ou.ts) : ShapeableTo(in, ou.ts[i])
+ShapeMember(in, out) == LET ou == Under(out)
+                            i == CHOOSE i \in 1..Len(ou.ts) : ShapeableTo(in, ou.ts[i]) /\ \A j \in 1..(i - 1) : ~ShapeableTo(in, ou.ts[j])
+                        IN ou.ts[i]
 ShaperTypeR(in, out) ==
   LET iu == Under(in)  ou == Under(out) IN
   IF iu = ou \/ iu = NullT THEN R(out, {})
@@ -206,6 +214,7 @@ ShaperTypeR(in, out) ==
   ELSE IF iu.k = "prim" /\ ou.k = "prim" THEN R(out, {}) \* primitive cast (never arises from merge)
   ELSE IF iu.k = "union" THEN UnionMembersR(iu.ts, out, 1, R(out, {}))
   ELSE IF BestUnionTag(in, ou) THEN R(out, {})
+  ELSE IF Shapeable(in, out) THEN R(out, {})
   ELSE IF iu.k = "rec" /\ ou.k = "rec" THEN
        LET fr == ShaperFieldsR(iu.fs, ou.fs, 1, R(<<>>, {})) IN
        IF fr.t = ERRFS THEN R(ERR, fr.x)
@@ -241,8 +250,8 @@ SortedByName(fs) == IF Len(fs) <= 1 THEN fs
 \* ---------------------------------------------------- expr.newStep (shaper.go)
 OKR(x)   == [ok |-> TRUE, x |-> x]
 FAILR(x) == [ok |-> FALSE, x |-> x]
-RECURSIVE NewStepR(_, _), RecordStepR(_, _, _, _), UnionStepR(_, _, _, _)
-TagStepR(in, out, x) == IF BestUnionTag(in, out) THEN OKR(x) ELSE FAILR(x \cup UnionHomeTaint(in, out))
+RECURSIVE RecordStepR(_, _, _, _), UnionStepR(_, _, _, _)
+TagStepR(in, out, x) == IF BestUnionTag(in, out) \/ Shapeable(in, out) THEN OKR(x) ELSE FAILR(x \cup UnionHomeTaint(in, out))
 NewStepR(in, out) ==
   LET iu == Under(in)  ou == Under(out) IN
   IF iu = NullT THEN OKR({})                                  \* null step
@@ -268,6 +277,13 @@ UnionStepR(ts, out, i, x) ==
   IF i > Len(ts) THEN OKR(x)
   ELSE LET r == NewStepR(ts[i], out) IN
        IF r.ok THEN UnionStepR(ts, out, i + 1, x \cup r.x) ELSE FAILR(x \cup r.x)
+
+\* one member t of a union can take a value of type in after shaping (shapeableUnionTag's loop body)
+ShapeableTo(in, t) ==
+  LET iu == Under(in)  tu == Under(t) IN
+  /\ (iu.k = "rec" /\ tu.k = "rec") \/ (HasInner(iu) /\ HasInner(tu) /\ (tu.k = "arr" \/ iu.k # "arr"))
+  /\ ShaperTypeR(in, t).t = t
+  /\ NewStepR(in, t).ok
 
 \* ConstShaper.Eval on a non-null, non-error value of type in, shaping to out:
 \* the type of the result (ERR = an error value replaces the input value).
@@ -305,6 +321,7 @@ StepLossless(in, typ) ==
   \/ iu.k = "set" /\ HasInner(ou) /\ StepLossless(iu.e, ou.e)
   \/ iu.k = "union" /\ \A i \in 1..Len(iu.ts) : StepLossless(iu.ts[i], typ)
   \/ BestUnionTag(in, typ)
+  \/ Shapeable(in, typ) /\ StepLossless(in, ShapeMember(in, typ))
 
 \* Record field order is the only thing merge(a,b) and merge(b,a) may differ in.
 RECURSIVE NormFields(_)
@@ -396,7 +413,7 @@ NonVacuous(Pr) == IF Shard >= NShards THEN TRUE ELSE
   /\ \E i \in 1..Len(Pr) : Pr[i].taint = <<>> /\ Pr[i].fused.k = "rec"
                              /\ Len(Pr[i].fused.fs) = 2 /\ Pr[i].ins[1].k = "rec" /\ Len(Pr[i].ins[1].fs) = 1
   /\ \E i \in 1..Len(Pr) : Pr[i].taint = <<>> /\ Pr[i].fused.k = "arr" /\ Pr[i].ins[1].k = "set"
-  /\ \E i \in 1..Len(Pr) : Pr[i].taint # <<>>
+  /\ Fixed # {} \/ \E i \in 1..Len(Pr) : Pr[i].taint # <<>>      \* the defect paths are reached (unless repaired)
   /\ Len(Pr) * NShards >= Cardinality(CaseSeqs) - NShards
 
 ExportCases(Pr) == OutFile = "" \/ ndJsonSerialize(OutFile, Pr)
